@@ -614,6 +614,37 @@ def expr_for(draw, frag):
         ex = ["Tuple", [ex, draw(S.expr("INT", 2, frag))]]
     elif c == 1:
         ex = ["Call", ["Lookup", ["Var", "math"], "floor"], [ex]]
+    elif c == 6:
+        # conditionals nested in every position of a conditional
+        v = lambda: draw(st.sampled_from((["Var", "x"], ["Var", "y"], ["Var", "z"],  # noqa: E731
+                                          ["Const", "int", 10], ["Const", "int", 30])))
+        cond = lambda: draw(st.sampled_from((["Var", "p"], ["Var", "q"],  # noqa: E731
+                                             ["Comparison", ["Var", "x"], "<", ["Var", "y"]])))
+        inner = ["If", cond(), v(), v()]
+        ex = draw(st.sampled_from((["If", cond(), inner, v()], ["If", cond(), v(), inner],
+                                   ["If", inner, v(), v()],
+                                   ["Sum", [["If", cond(), inner, v()], v()]])))
+    elif c == 7:
+        # divisions / remainders / powers with the neutral operands 1 and 0, over values
+        # that are not integers (x // 1 is not x, x % 1 is not 0 for x = 1/3)
+        e1 = draw(st.sampled_from((["Var", "r"], ["Var", "s"], ["Var", "x"],
+                                   ["Sum", [["Var", "r"], ["Var", "x"]]])))
+        ex = draw(st.sampled_from((["FloorDiv", e1, ["Const", "int", 1]],
+                                   ["Remainder", e1, ["Const", "int", 1]],
+                                   ["Power", e1, ["Const", "int", 0]],
+                                   ["Power", ["Const", "int", 1], e1],
+                                   ["Sum", [["FloorDiv", e1, ["Const", "int", 1]], ["Var", "y"]]])))
+    elif c == 8:
+        # products of parenthesised sums as operands of / // % and remainders of sums
+        # as factors: the text of the operand itself starts with '(' and ends with ')'
+        s1 = ["Sum", [["Var", "x"], ["Const", "int", 1]]]
+        s2 = ["Sum", [["Var", "y"], ["Const", "int", 4]]]
+        pr = ["Product", [s1, s2]]
+        ex = draw(st.sampled_from((
+            ["FloorDiv", ["Var", "z"], pr], ["Remainder", ["Var", "z"], pr],
+            ["Quotient", ["Var", "z"], pr], ["Product", [["Var", "z"], ["Remainder", s1, s2]]],
+            ["Product", [["Var", "z"], ["FloorDiv", s1, s2]]],
+            ["FloorDiv", ["Product", [["Var", "z"], ["Const", "int", 100]]], pr])))
     elif c == 5:
         # sums with a negated term in the middle: a + (-1)*b + c is neither a - (b + c) nor
         # (a - b) - c regrouped
